@@ -66,9 +66,9 @@ ENV = {"OMP_NUM_THREADS": "1", "OPENBLAS_NUM_THREADS": "1", "MKL_NUM_THREADS": "
 def plan(tier):
     if tier == "quick":
         return dict(n_cases=400, shards=2, classes=CLASSES, timeout_s=600, env=ENV,
-                    min_evals={"cbd_rows": 800, "cbd_separated": 800, "cbd_dominated": 800, "cbd_isolation": 800,
-                               "cbd_metamorphic": 300, "sx_threshold": 500, "sx_score": 500, "sx_angles": 500,
-                               "sx_separated": 500, "sx_dominated": 500, "sx_relational": 250})
+                    min_evals={"cbd_rows": 800, "cbd_separated": 800, "cbd_dominated": 800, "cbd_isolation": 1400,
+                               "cbd_metamorphic": 300, "sx_threshold": 1200, "sx_score": 1200, "sx_angles": 1200,
+                               "sx_separated": 1200, "sx_dominated": 1200, "sx_relational": 250})
     return dict(n_cases=3200, shards=16, classes=CLASSES, timeout_s=3000, env=ENV,
                 min_evals={"cbd_rows": 8000, "cbd_separated": 8000, "cbd_dominated": 8000, "cbd_isolation": 12000,
                            "cbd_metamorphic": 2200, "sx_threshold": 8000, "sx_score": 8000, "sx_angles": 8000,
